@@ -319,6 +319,9 @@ pub struct RunConfig {
     /// evidence file of the same property from another build configuration, merged into this one
     pub merge_part: Option<String>,
     pub max_wall_s: u64,
+    /// internal (child process of the reproduction fallback): one worker, stop at the first violation,
+    /// print `SEQFIND <run index>` and exit without minimising
+    pub seqfind: bool,
 }
 
 pub struct RunReport {
@@ -414,6 +417,7 @@ pub fn run_world<W: World>(world: Arc<W>, cfg: &RunConfig) -> RunReport {
         let seed = cfg.seed;
         let runs = cfg.runs;
         let first_run = cfg.first_run;
+        let seqfind = cfg.seqfind;
         let digest_only = cfg.digest_only;
         let max_wall = Duration::from_secs(cfg.max_wall_s);
         handles.push(
@@ -457,6 +461,10 @@ pub fn run_world<W: World>(world: Arc<W>, cfg: &RunConfig) -> RunReport {
                             local_digests.push((i, out.digest));
                         }
                         if let Some(v) = out.violation {
+                            if seqfind {
+                                println!("SEQFIND {i} {}", v.class);
+                                std::process::exit(1);
+                            }
                             stop_at.fetch_min(i, Ordering::Relaxed);
                             found.lock().unwrap().push(Found {
                                 run_index: i,
@@ -531,6 +539,29 @@ pub fn run_world<W: World>(world: Arc<W>, cfg: &RunConfig) -> RunReport {
         if let Err(e) = std::fs::write(&path, serde_json::to_string_pretty(&doc).unwrap()) {
             eprintln!("harness error: cannot write replay {path}: {e}");
             std::process::exit(2);
+        }
+        // A replay file must reproduce in a FRESH process. It always does when the library's answers
+        // depend only on the scenario; it may not when the change under test introduced state that
+        // outlives a run (a static, a thread_local): then earlier runs of the same worker are part of the
+        // cause. Fall back, in order: the unminimised scenario; then a contiguous sequence of runs
+        // executed in one thread, found by a single-worker re-run in a child process and shortened by
+        // doubling the window from the violating run backwards.
+        let mut min_detail = min_detail;
+        if !cfg.seqfind && !child_reproduces(&path) {
+            let mut doc2 = doc.clone();
+            doc2["scenario"] = world.to_json(&f.violation.scn);
+            doc2["minimised"] = json!(false);
+            doc2["note"] = json!("the minimised scenario did not reproduce in a fresh process; this is the scenario as found");
+            let _ = std::fs::write(&path, serde_json::to_string_pretty(&doc2).unwrap());
+            if !child_reproduces(&path) {
+                match sequence_replay(&*world, cfg, f.run_index, &path) {
+                    Some(note) => min_detail = format!("{min_detail} [{note}]"),
+                    None => {
+                        min_detail = format!("{min_detail} [WARNING: found in-process but not reproducible in a fresh process, neither alone nor as a single-threaded sequence of runs: the library keeps state across runs and threads]");
+                        let _ = std::fs::write(&path, serde_json::to_string_pretty(&doc2).unwrap());
+                    }
+                }
+            }
         }
         if let Some(desc) = known.matches(prop, &sig) {
             known_lines.push(format!("KNOWN-FINDING: property={prop} signature={sig} {desc}"));
@@ -642,6 +673,72 @@ pub fn run_world<W: World>(world: Arc<W>, cfg: &RunConfig) -> RunReport {
     }
 }
 
+fn child_status(args: &[&str]) -> (i32, String) {
+    let exe = match std::env::current_exe() {
+        Ok(e) => e,
+        Err(_) => return (2, String::new()),
+    };
+    match std::process::Command::new(exe).args(args).stderr(std::process::Stdio::null()).output() {
+        Ok(o) => (o.status.code().unwrap_or(134), String::from_utf8_lossy(&o.stdout).into_owned()),
+        Err(_) => (2, String::new()),
+    }
+}
+
+/// Does `pwsim replay <path>` report the violation in a fresh process? (exit 1, or an abnormal
+/// termination for abort-class replays)
+fn child_reproduces(path: &str) -> bool {
+    let (code, _) = child_status(&["replay", path]);
+    code == 1 || code > 2
+}
+
+/// The library under test keeps state across runs: find a single-threaded contiguous sequence of runs
+/// whose last run violates the property, shorten it, write it to `path` as a sequence replay.
+fn sequence_replay<W: World>(world: &W, cfg: &RunConfig, _found_at: u64, path: &str) -> Option<String> {
+    let prop = world.prop();
+    let seed = cfg.seed.to_string();
+    // the whole batch on ONE worker: with state that outlives runs, which run trips first depends on what
+    // each thread executed before, so the 16-worker index is no guide
+    let runs = cfg.runs.to_string();
+    let (code, out) = child_status(&["seqfind", "--prop", prop, "--tier", cfg.tier.name(), "--seed", &seed, "--runs", &runs, "--workers", "1"]);
+    if code != 1 {
+        return None;
+    }
+    let line = out.lines().find(|l| l.starts_with("SEQFIND "))?;
+    let mut it = line.split_whitespace().skip(1);
+    let j: u64 = it.next()?.parse().ok()?;
+    let class = it.next().unwrap_or("").to_string();
+    let last_scenario = {
+        let mut r = Rng::new(run_seed(cfg.seed, prop, j));
+        world.to_json(&world.generate(&mut r, cfg.tier))
+    };
+    let write = |from: u64| {
+        let doc = json!({
+            "property": prop,
+            "class": class,
+            "detail": "the violation depends on state the library keeps ACROSS runs (a static or thread-local introduced by the change under test): replay executes runs `from..=to` of the seeded batch in one thread, in order; the last one violates the property",
+            "base_seed": cfg.seed,
+            "tier": cfg.tier.name(),
+            "minimised": true,
+            "sequence": {"from": from, "to": j},
+            "last_scenario": last_scenario.clone(),
+        });
+        let _ = std::fs::write(path, serde_json::to_string_pretty(&doc).unwrap());
+    };
+    // shortest window (by doubling) ending at j that still reproduces in a fresh process
+    let mut len = 1u64;
+    loop {
+        let from = j.saturating_sub(len - 1);
+        write(from);
+        if child_reproduces(path) {
+            return Some(format!("depends on library state that outlives a run: replay is the single-threaded sequence of runs {from}..={j}"));
+        }
+        if from == 0 {
+            return None;
+        }
+        len *= 2;
+    }
+}
+
 /// Index ranges to try deleting from a list of `len` elements when minimising: halves, quarters, ...,
 /// single elements, but never more than a bounded number of ranges per level for long lists (every
 /// candidate is a full clone of the scenario; a 65 537-segment function must not yield 65 537 clones).
@@ -700,6 +797,36 @@ pub fn minimise<W: World>(world: &W, v: &Violation<W::Scn>, prog: &Progress) -> 
 
 /// Replay an explicit scenario from a replay file. Exit 1 iff the violation reproduces.
 pub fn replay_world<W: World>(world: Arc<W>, doc: &Value) -> i32 {
+    if let Some(seq) = doc.get("sequence") {
+        // a contiguous sequence of seeded runs executed in this one thread, in order
+        let (Some(from), Some(to), Some(base)) = (
+            seq.get("from").and_then(|x| x.as_u64()),
+            seq.get("to").and_then(|x| x.as_u64()),
+            doc.get("base_seed").and_then(|x| x.as_u64()),
+        ) else {
+            eprintln!("harness error: malformed sequence replay");
+            return 2;
+        };
+        let tier = if doc.get("tier").and_then(|t| t.as_str()) == Some("thorough") { Tier::Thorough } else { Tier::Quick };
+        let prog = Progress::default();
+        let mut cov = Cov::new(false);
+        let mut last = None;
+        for i in from..=to {
+            let mut rng = Rng::new(run_seed(base, world.prop(), i));
+            let scn = world.generate(&mut rng, tier);
+            last = world.explore(&scn, tier, &mut cov, &prog).violation;
+        }
+        return match last {
+            Some(v) => {
+                println!("REPRODUCED property={} class={} (sequence of runs {from}..={to})\n  {}", world.prop(), v.class, v.detail);
+                1
+            }
+            None => {
+                println!("NOT-REPRODUCED property={} (sequence of runs {from}..={to})", world.prop());
+                0
+            }
+        };
+    }
     let scn = match doc.get("scenario").ok_or("missing scenario".to_string()).and_then(|s| world.from_json(s)) {
         Ok(s) => s,
         Err(e) => {
